@@ -68,7 +68,7 @@ def run(module, cfg, workers=16, simulate=None, depth=None, seed=None,
     meta = tempfile.mkdtemp(prefix='tlc-', dir=scratch)
     cfgp = cfg if os.path.isabs(cfg) else os.path.join(SPEC_DIR, 'cfg', cfg)
     cmd = ['java', '-XX:+UseParallelGC', '-Xmx8g', '-Xss256m',
-           '-DTLA-Library=' + SPEC_DIR]
+           '-DTLA-Library=' + SPEC_DIR, '-Djava.io.tmpdir=' + meta]
     if dfs:
         cmd.append('-Dtlc2.tool.queue.IStateQueue=StateDeque')
     cmd += list(jvm)
